@@ -885,6 +885,92 @@ def mon_C18(case):
     return bad[:1]
 
 
+class SRun:
+    """a SyncWrapper trace: just the lines"""
+
+    def __init__(self, trace):
+        self.t = trace
+        self.cfg = cfg_of(trace)
+        self.lines = [(k, a.split(), parse_obs(o) if o else {}) for k, (a, o, sec) in enumerate(trace.steps)]
+        self.has_resize = False
+        self.has_close = False
+
+
+def mon_C14(run):
+    """SyncWrapper: an independent reading of the property on the implementation's own event
+    stream (never looks at the model).  The stream is in real-time order; `b` = ran on a thread of
+    the blocking pool, `a` = on an async thread (runtime worker or main thread)."""
+    bad = []
+    if run.cfg.get("create") != "b":
+        bad.append((0, f"the wrapped value was constructed on an async thread (create={run.cfg.get('create')})"))
+    running = None          # closure currently inside the value
+    destroyed = 0
+    dropped = False
+    beh = {}                # task -> 'ok' | 'panic' (from the call)
+    began, finished = set(), {}
+    panicked_before = False
+    ncalls = 0
+    calls_after_poison = set()
+    for k, ws, obs in run.lines:
+        kind = ws[0]
+        if kind == "call":
+            beh[ncalls] = ws[1]
+            if panicked_before:
+                calls_after_poison.add(ncalls)
+            ncalls += 1
+        elif kind == "begin":
+            i = int(ws[1])
+            if ws[2] != "b":
+                bad.append((k, f"closure {i} ran on the thread that awaited it / an async thread"))
+            if running is not None:
+                bad.append((k, f"closure {i} entered the value while closure {running} was still using it"))
+            if destroyed:
+                bad.append((k, f"closure {i} ran after the destructor"))
+            running = i
+            began.add(i)
+        elif kind == "finish":
+            i = int(ws[1])
+            if running != i:
+                bad.append((k, f"closure {i} finished but {running} was the one inside"))
+            running = None
+            finished[i] = ws[2] == "1"
+            if ws[2] == "1":
+                panicked_before = True
+        elif kind == "destroy":
+            destroyed += 1
+            if ws[1] != "b":
+                bad.append((k, "the destructor ran on the thread that dropped the wrapper / an async thread"))
+            if running is not None:
+                bad.append((k, f"the destructor ran while closure {running} was still using the value"))
+            if destroyed > 1:
+                bad.append((k, "the destructor ran twice"))
+            if not dropped:
+                bad.append((k, "the destructor ran before the wrapper was dropped"))
+        elif kind == "dropw":
+            dropped = True
+        elif kind == "result":
+            i, r = int(ws[1]), ws[2]
+            if r == "aborted":
+                bad.append((k, f"interact {i} returned Aborted"))
+            if finished.get(i) is True and r != "panic":
+                bad.append((k, f"closure {i} panicked but interact returned {r}"))
+            if r == "ok" and finished.get(i) is not False:
+                bad.append((k, f"interact {i} returned Ok although its closure did not complete"))
+            if r == "panic" and finished.get(i) is False:
+                bad.append((k, f"closure {i} returned normally but interact reported Panic"))
+            if i in calls_after_poison and i in began:
+                bad.append((k, f"closure {i} was run on a wrapper whose mutex was already poisoned"))
+        elif kind == "probe":
+            want = "1" if panicked_before else "0"
+            if obs.get("poisoned") != want:
+                bad.append((k, f"is_mutex_poisoned() = {obs.get('poisoned')} but a closure {'has' if panicked_before else 'has not'} panicked"))
+        if bad:
+            return bad[:1]
+    if dropped and not run.t.error and destroyed != 1:
+        bad.append((len(run.lines) - 1, f"the wrapper was dropped but the destructor ran {destroyed} times"))
+    return bad[:1]
+
+
 def mon_C19(case):
     """redis configs: independent re-statement of the property on the harness's own input
     description and the implementation's answer (never looks at the model)"""
@@ -1260,4 +1346,4 @@ def mon_C08(run):
     return bad[:1]
 
 
-MONITORS = {"C18": mon_C18, "C19": mon_C19, "C05": mon_C05, "C12": mon_C12, "C08": mon_C08, "C13": mon_C13, "C04": mon_C04, "C07": mon_C07, "C06": mon_C06, "C09": mon_C09, "C03": mon_C03, "C10": mon_C10, "C01": mon_C01, "C02": mon_C02, "C11": mon_C11}
+MONITORS = {"C14": mon_C14, "C18": mon_C18, "C19": mon_C19, "C05": mon_C05, "C12": mon_C12, "C08": mon_C08, "C13": mon_C13, "C04": mon_C04, "C07": mon_C07, "C06": mon_C06, "C09": mon_C09, "C03": mon_C03, "C10": mon_C10, "C01": mon_C01, "C02": mon_C02, "C11": mon_C11}
